@@ -149,7 +149,7 @@ impl Strategy for TapeStrategy {
     fn new_tree(&self, runner: &mut TestRunner) -> NewTree<Self> {
         use proptest::prelude::RngCore;
         let rng = runner.rng();
-        let classes: [usize; 8] = [32, 64, 128, 128, 256, 512, 2048, 8192];
+        let classes: [usize; 8] = [64, 128, 256, 256, 512, 1024, 2048, 8192];
         let len = classes[(rng.next_u32() % 8) as usize].min(self.max_len);
         let mut tape = vec![0u8; len];
         rng.fill_bytes(&mut tape);
